@@ -24,6 +24,20 @@ MASKS = {"unsigned char": 8, "uint8_t": 8, "unsigned short": 16, "uint16_t": 16,
          "std::uint8_t": 8, "std::uint16_t": 16, "std::uint32_t": 32}
 
 
+TYPE_RANGES = [(r"^(const )?(unsigned char|uint8_t|std::uint8_t|boost::gil::byte_t|byte_t)$", (0, 255)), (r"^(const )?(unsigned short|uint16_t|std::uint16_t)$", (0, 65535)),
+               (r"^(const )?(unsigned int|uint32_t|std::uint32_t)$", (0, 2 ** 32 - 1)), (r"^(const )?(int|int32_t|std::int32_t)$", (-2 ** 31, 2 ** 31 - 1)),
+               (r"^(const )?(short|int16_t)$", (-32768, 32767)), (r"^(const )?(signed char|int8_t)$", (-128, 127)), (r"^(const )?bool$", (0, 1))]
+
+
+def type_range(t):
+    import re
+    t = (t or "").replace("typename ", "").strip()
+    for pat, r in TYPE_RANGES:
+        if re.match(pat, t):
+            return r
+    return None
+
+
 class Exec:
     def __init__(self, fns, ranges=None, depth=6):
         self.by_id = {}
@@ -36,6 +50,8 @@ class Exec:
         self.loop = 0
         self.trace = []
         self.alias = {}                       # "L:<param id>" -> key of the object a reference parameter is bound to
+        self.nphi = 0
+        self.arrays = {}                      # local array var key -> [Poly|None, ...]
 
     # ------------------------------------------------------------------ values
     def bounds(self, p):
@@ -179,7 +195,12 @@ class Exec:
         if "const" in n and R.is_lit(str(n["const"])):
             return Poly.const(int(n["const"]))
         if vk is not None and self.scalar(n):
-            return Poly.atom(self.var_name(n, vk))
+            nm = self.var_name(n, vk)
+            if nm not in self.ranges:
+                r = type_range(n.get("ctype") or n.get("type"))
+                if r is not None:
+                    self.ranges[nm] = r
+            return Poly.atom(nm)
         if "const" in n and R.is_lit(str(n["const"])):
             return Poly.const(int(n["const"]))
         if k == "Binary":
@@ -216,6 +237,17 @@ class Exec:
                 return self.ev(n["else"])
             a, b = self.ev(n["then"]), self.ev(n["else"])
             return a if (a is not None and a == b) else None
+        if k == "Subscript":
+            bk = self.var_key(n.get("base"))
+            if bk in self.arrays:
+                i = self.ev(n.get("idx"))
+                el = self.arrays[bk]
+                if i is not None and i.is_const() and 0 <= i.const_value() < len(el):
+                    return el[i.const_value()]
+                bs = [self.bounds(e) for e in el]
+                if all(b[0] is not None for b in bs) and bs:
+                    return self.fresh(min(b[0] for b in bs), max(b[1] for b in bs), "elem")
+            return None
         if k in ("Assign", "CompoundAssign"):
             return self.assign(n)
         if k == "Call":
@@ -268,6 +300,11 @@ class Exec:
                 return self.floordiv(a, y)
             if op == "<<" and 0 <= y < 32:
                 return a * Poly.const(1 << y)
+            if op == "&" and y >= 0:
+                lo, hi = self.bounds(a)
+                if lo is not None and lo >= 0:
+                    return self.fresh(0, min(y, hi), "and")
+                return self.fresh(0, y, "and")
         return None
 
     # ------------------------------------------------------------------ state
@@ -292,7 +329,15 @@ class Exec:
     def on_assign(self, vk, v, n):
         pass
 
-    def join(self, envs):
+    def fresh(self, lo, hi, tag="phi"):
+        self.nphi += 1
+        nm = "%s%d" % (tag, self.nphi)
+        self.ranges[nm] = (lo, hi)
+        return Poly.atom(nm)
+
+    def join(self, envs, rngs=None):
+        """pointwise join; values that differ become a fresh symbol whose range is the hull of the arms' ranges
+        (evaluated with the arm's own refined ranges when given)"""
         keys = set()
         for e in envs:
             keys |= set(e)
@@ -300,7 +345,26 @@ class Exec:
         for k in keys:
             vals = [e.get(k, "absent") for e in envs]
             v0 = vals[0]
-            out[k] = v0 if all((v is not None and v != "absent" and v == v0) for v in vals) and v0 != "absent" else None
+            if v0 != "absent" and all((v is not None and v != "absent" and v == v0) for v in vals):
+                out[k] = v0
+                continue
+            lo = hi = None
+            ok = True
+            for i, v in enumerate(vals):
+                if v is None or v == "absent":
+                    ok = False
+                    break
+                saved = self.ranges
+                if rngs:
+                    self.ranges = rngs[i]
+                b = self.bounds(v)
+                self.ranges = saved
+                if b[0] is None:
+                    ok = False
+                    break
+                lo = b[0] if lo is None else min(lo, b[0])
+                hi = b[1] if hi is None else max(hi, b[1])
+            out[k] = self.fresh(lo, hi) if ok else None
         return out
 
     # ------------------------------------------------------------------ statements
@@ -311,21 +375,73 @@ class Exec:
                 return sig
         return None
 
-    def branch(self, arms):
-        """execute alternative arms (lists of statements) on copies; arms that Stop are dropped"""
+    def refine(self, cond, positive):
+        """ranges refined by a condition `atom <op> const` (or const <op> atom) assumed true / false"""
+        r = dict(self.ranges)
+        c = R.strip(cond) if cond is not None else None
+        while c is not None and c.get("k") == "Paren":
+            c = R.strip(c["e"])
+        if c is None or c.get("k") != "Binary" or c.get("op") not in ("<", "<=", ">", ">=", "==", "!="):
+            return r
+        a, b = self.ev(c["l"]), self.ev(c["r"])
+        op = c["op"]
+        if a is None or b is None:
+            return r
+        if a.is_const() and not b.is_const():
+            a, b, op = b, a, R.FLIP[op]
+        if not b.is_const() or len(a.t) != 1:
+            return r
+        (mon, coef), = a.t.items()
+        if len(mon) != 1 or coef != 1:
+            return r
+        atom, k = mon[0], b.const_value()
+        if not positive:
+            op = R.NEG[op]
+        lo, hi = r.get(atom, (None, None))
+        if lo is None:
+            lo, hi = -2 ** 63, 2 ** 63
+        if op == "<":
+            hi = min(hi, k - 1)
+        elif op == "<=":
+            hi = min(hi, k)
+        elif op == ">":
+            lo = max(lo, k + 1)
+        elif op == ">=":
+            lo = max(lo, k)
+        elif op == "==":
+            lo, hi = max(lo, k), min(hi, k)
+        if lo <= hi:
+            r[atom] = (lo, hi)
+        return r
+
+    def branch(self, arms, cond=None):
+        """execute alternative arms (lists of statements) on copies; arms that Stop are dropped. With `cond` (two arms:
+        then, else) the ranges are refined per arm."""
         base_env, results, sigs = dict(self.env), [], []
+        base_rng = self.ranges
+        rngs = []
         stops = []
-        for arm in arms:
+        for i, arm in enumerate(arms):
             self.env = dict(base_env)
+            self.ranges = base_rng
+            self.ranges = self.refine(cond, i == 0) if (cond is not None and len(arms) == 2) else dict(base_rng)
             try:
                 sig = self.block(arm)
                 results.append(self.env)
+                rngs.append(self.ranges)
                 sigs.append(sig)
             except Stop as s:
                 stops.append(s)
+        # symbols created in the arms stay known; refinements of older symbols are dropped
+        merged = dict(base_rng)
+        for rg in rngs:
+            for k, v in rg.items():
+                if k not in base_rng:
+                    merged[k] = v
+        self.ranges = merged
         if not results:
             raise stops[0]
-        self.env = self.join(results) if len(results) > 1 else results[0]
+        self.env = self.join(results, rngs) if len(results) > 1 else results[0]
         # a return in only some arms: conservatively continue (values were joined)
         if sigs and all(s is not None and s[0] == "return" for s in sigs):
             return sigs[0] if len(sigs) == 1 else ("return", None)
@@ -344,7 +460,15 @@ class Exec:
         if k == "Decl":
             for d in s.get("decls", []):
                 if d.get("name") and d.get("id"):
+                    init = R.strip(d["init"]) if d.get("init") is not None else None
+                    if init is not None and init.get("k") == "InitList":
+                        self.arrays["L:%s" % d["id"]] = [self.ev(e) for e in init.get("c", [])]
+                        continue
                     v = self.ev(d["init"]) if d.get("init") is not None else None
+                    if v is None and d.get("init") is not None:
+                        r = type_range(d.get("ctype") or d.get("type"))
+                        if r is not None:
+                            v = self.fresh(r[0], r[1], "v_" + d["name"] + "_")
                     self.env["L:%s" % d["id"]] = v
             return None
         if k == "If":
@@ -356,7 +480,7 @@ class Exec:
                 return self.block(th)
             if t is False:
                 return self.block(el)
-            return self.branch([th, el])
+            return self.branch([th, el], cond=s["cond"])
         if k == "Switch":
             return self.switch(s)
         if k == "Return":
